@@ -368,9 +368,12 @@ func driveC23(o hx.RunOpts) error {
 		"one operation Get(rw)/Get(read-only)/UpdateNoLocks/Add/Remove through a fresh fs.NewRegistry object with a new L2 cache). Corruptions: single bit in a record's id / record body / "+
 		"checksum trailer / anywhere; bursts of 1..62 random bytes on a slot or anywhere; a record zeroed; the trailer overwritten; none (control). Backup states: absent, empty, short prefix, "+
 		"full-size with bad checksum, valid copy, valid older image. Compared with the model: unmarshalData's verdict on the corrupted block, the operation's result class and decoded handle, "+
-		"block bytes and backup file after the operation. distinct = hash of the op lines; non-trivial = the block on disk fails its checksum when the operation starts")
+		"block bytes and backup file after the operation. Second family (the writer's own crash): the first Add into a never written block (no segment file yet / block of an existing file never touched / block emptied again) "+
+		"and, as a control, Add/UpdateNoLocks into a populated block, killed through fs.DirectIOSim before / inside the backup write (truncated backup) / inside the block write after a prefix or a random set of 64..1024-byte sectors / after it; "+
+		"then Get of the never committed id (rw/ro), the next writer of the block (Add/UpdateNoLocks of another record), Get again; oracle: no bad-checksum block without usable backup after the crash, every lookup answers error / the record before the write (/ the new one only if the write was complete), also after the next writer. distinct = hash of the op lines; non-trivial = the block on disk fails its checksum when the operation starts")
 	p := hx.NewPrng(o.Seed)
 	ctx := context.Background()
+	hook = bc.Install()
 
 	// directed corpus first: C23_counterexample on the real code — one bit of a record's physical id flipped, no backup
 	{
@@ -389,6 +392,11 @@ func driveC23(o hx.RunOpts) error {
 		if err != nil {
 			return err
 		}
+	}
+
+	// the writer's own crash as the source of the bad block (first write of a never written block, …)
+	if err := driveFirstWrites(ctx, s, hx.NewPrng(o.Seed*977+23), o); err != nil {
+		return err
 	}
 
 	nworlds := o.N(120, 1200)
